@@ -247,6 +247,49 @@ def check_c20(tier):
                             "--skip-unused and --only-unused do not partition the listing")
         if trees <= 2:
             V.sample({"shape": shape, "unused": sorted(map(list, got)), "counts": sorted((list(k), v) for k, v in counts.items())})
+    # ---- part 3: the CLI run on a SUB-DIRECTORY whose conftest.py pulls fixtures in from above it (Imports.tla cases with the
+    # importer R/sub/conftest.py).  Judged for what C20 states without a reference answer: exit status 1 exactly when the list is
+    # non-empty, JSON valid with the same entries as the text, byte-identical repeated runs.
+    import diskchecks as DK
+    meta_i = C.run_tlc("Imports", "Imports.cfg", workers=12, timeout=3600)
+    icases = [c for c in C.tlc_cases(meta_i) if c["shape"]["imp"] == "cs"]
+    icases = icases[:: max(1, len(icases) // (60 if tier == "quick" else 600))]
+
+    def subjob(n_c):
+        n, c = n_c
+        root = os.path.join(base, "sub%d" % n)
+        uni = DK.imp_universe(root)
+        for sl, m in c["ws"].items():
+            os.makedirs(os.path.dirname(uni.paths[sl]), exist_ok=True)
+            with open(uni.paths[sl], "w") as fh:
+                fh.write(R.render_checked(uni, sl, m).text)
+        sub = os.path.join(root, "R", "sub")
+        try:
+            runs = [lsp.run_cli(["fixtures", "unused", sub], env={"RAYON_NUM_THREADS": t})[:2] for t in ("1", "8")]
+            js = lsp.run_cli(["fixtures", "unused", sub, "--format", "json"])[:2]
+            return {"runs": runs, "json": js}
+        finally:
+            shutil.rmtree(root, ignore_errors=True)
+
+    for (n, c), r in zip(enumerate(icases), lsp.run_parallel(list(enumerate(icases)), subjob, workers=8)):
+        if r is None or "__exception__" in r:
+            raise C.ToolError("CLI job failed: %r" % (r,))
+        V.count()
+        V.nontriv("subdir" + json.dumps(c["shape"], sort_keys=True))
+        trees += 1
+        rc0, so0 = r["runs"][0]
+        listed = parse_unused_text(so0)
+        ex = {"scanned_directory": "R/sub", "import_shape": c["shape"], "output": ANSI.sub("", so0), "exit": rc0, "json": r["json"][1]}
+        if rc0 not in (0, 1) or (rc0 == 1) != bool(listed):
+            V.violation(ex, "`fixtures unused` on a sub-directory: exit status does not match its list")
+        if r["runs"][1] != r["runs"][0]:
+            V.violation(dict(ex, second_run=ANSI.sub("", r["runs"][1][1])), "`fixtures unused` on a sub-directory: repeated runs differ")
+        try:
+            js = json.loads(r["json"][1])
+            if {(x["file"], x["fixture"]) for x in js} != set(listed) or r["json"][0] != rc0:
+                V.violation(ex, "`fixtures unused` on a sub-directory: json and text output disagree")
+        except ValueError:
+            V.violation(ex, "`fixtures unused --format json` on a sub-directory is not valid JSON")
     shutil.rmtree(base, ignore_errors=True)
     cov = L.tlc_cov(meta_lib, replayed + trees)
     cov["states"] += meta["distinct"]
